@@ -74,7 +74,7 @@ func (p *Proxy) SetBackend(addr string) {
 	p.mu.Unlock()
 }
 
-// SetPlan sets the fault plan applied to connections accepted from now on.
+// SetPlan sets the fault plan for the next accepted connection (later ones are not faulted).
 func (p *Proxy) SetPlan(pl Plan) {
 	p.mu.Lock()
 	p.plan = pl
@@ -104,6 +104,9 @@ func (p *Proxy) acceptLoop() {
 		p.Accepted.Add(1)
 		p.mu.Lock()
 		refuse, backend, plan, lat := p.refuse, p.backend, p.plan, p.latency
+		if !refuse {
+			p.plan = Plan{} // a plan applies to the next accepted connection only
+		}
 		p.mu.Unlock()
 		if refuse {
 			rst(c)
@@ -220,7 +223,7 @@ func (pc *pconn) cut(dst net.Conn) {
 			// the other direction keeps flowing until the peers react; make sure the
 			// connection does not linger forever
 			go func() {
-				time.Sleep(2 * time.Second)
+				time.Sleep(300 * time.Millisecond)
 				pc.close(CutFIN)
 			}()
 		case CutStall:
